@@ -131,6 +131,7 @@ class CEval:
         self.loopctx = ()
         self.loop_returns = []           # (value | kind, conds, line, loops) of return / break inside summarised loops
         self.finals = []                 # (env, conds, how) at every path end: how = 'end' | 'return' | 'BreakStmt' | 'ContinueStmt'
+        self.havocked = set()
 
     def ex(self, e, env):
         return self.resolve(to_expr(e, env, self.arrays))
@@ -177,7 +178,40 @@ class CEval:
                 return ("arr", b["referencedDecl"]["name"], num(0))
         raise Undecided("assignment target")
 
+    def _arg(self, a, env):
+        try:
+            return self.ex(a, env)
+        except Undecided:
+            return ('sym', '&' + text(a).replace(" ", "").lstrip("&"))
+
+    def _havoc_calls(self, s, env):
+        """a call of a function of the repository may write through its pointer arguments: what the environment knows
+        about those arrays / address-taken scalars is forgotten"""
+        from .cnorm import PURE_CALLS, NO_EFFECT_CALLS, walk, callee_name
+        for n in walk(s):
+            if n.get("kind") == "CallExpr" and callee_name(n) not in PURE_CALLS and callee_name(n) not in NO_EFFECT_CALLS:
+                for a in n["inner"][1:]:
+                    a2 = a
+                    while a2.get("kind") in ("ParenExpr", "ImplicitCastExpr", "CStyleCastExpr"):
+                        a2 = a2["inner"][0]
+                    if a2.get("kind") == "UnaryOperator" and a2.get("opcode") == "&":
+                        t = strip(a2["inner"][0])
+                        if t.get("kind") == "DeclRefExpr":
+                            env.pop(t["referencedDecl"]["name"], None)
+                            self.havocked.add(t["referencedDecl"]["name"])
+                        continue
+                    if a2.get("kind") == "DeclRefExpr" and a2.get("type", {}).get("qualType", "").rstrip().endswith(("*", "]")):
+                        nm = a2["referencedDecl"]["name"]
+                        for k_ in [k_ for k_ in env if k_.startswith(nm + "[")]:
+                            del env[k_]
+
     def _assign(self, s, env, conds):
+        r = self._assign0(s, env, conds)
+        if r:
+            self._havoc_calls(s, env)
+        return r
+
+    def _assign0(self, s, env, conds):
         k = s.get("kind")
         if k == "BinaryOperator" and s.get("opcode") == "=":
             kind, name, idx = self._lhs(s["inner"][0], env)
@@ -297,7 +331,8 @@ class CEval:
                 name = c["referencedDecl"]["name"] if c.get("kind") == "DeclRefExpr" else None
                 if name in ("free", "fprintf", "printf"):
                     continue
-                self.effects.append(Effect("call:" + str(name), None, "call", tuple(self.ex(a, env) for a in s["inner"][1:]), conds, s.get("_line")))
+                self.effects.append(Effect("call:" + str(name), None, "call", tuple(self._arg(a, env) for a in s["inner"][1:]), conds, s.get("_line")))
+                self._havoc_calls(s, env)
                 continue
             if k == "BinaryOperator" and s.get("opcode") == ",":
                 self._walk(list(s["inner"]) + stmts[i + 1:], env, conds)
